@@ -22,10 +22,11 @@ Used by C15 ("parsing untrusted frames never fails").  Core only.
 (tcp.py:640-644, the C14 option parser returns `none`/`.fail` for "raised"); `lldp.next_tlv` (after repair C15-1) catches
 everything a TLV constructor raises.
 
-The code exists in two versions, selected by `Cfg`: `Cfg.head` is /repo HEAD, `Cfg.repaired` is HEAD plus the proposed
-repairs  D14 (`fixes/D14_lldp_tlv_bound.diff`: TLV bound check includes the 2-byte TLV header),
-C15-1 (`lldp.next_tlv` gives up on a malformed TLV instead of raising), C15-2 (lldp `__str__` of a MAC-subtype id that is not
-6 bytes), C15-3 (`llc.__str__` of an object whose parse gave up), C15-4 (a TCP option must end inside the header).
+The code exists in two versions, selected by `Cfg`: `Cfg.repaired` is /repo HEAD, which contains the repairs
+D14 (d7ff84a: TLV bound check includes the 2-byte TLV header), C15-1 (c4c3f4b: `lldp.next_tlv` gives up on a malformed TLV
+instead of raising), C15-2 (a91c2bd: lldp `__str__` of a MAC-subtype id that is not 6 bytes), C15-3 (60ec5b5: `llc.__str__` of
+an object whose parse gave up), C15-4 (1392d59: a TCP option must end inside the header); `Cfg.head` is the tree before
+those five commits (what HEAD was when the defects were found), kept for the `…_defect` witnesses.
 
 Layers handed to a parser that is not behaviour-modelled (ipv6, icmpv6, dhcp, dns, rip, vxlan, igmp, gre, mpls, eapol/eap, the
 MPTCP option) end the model's chain as `Frame.foreign cls bytes`: the model says which class is called with which bytes and
